@@ -397,6 +397,20 @@ func concCases(a shardArgs) []Case {
 	return out
 }
 
+// concQuickCases (both tiers): 8 and 32 goroutines released together, CopyFile and MoveFile mixed,
+// distinct files of about 300 KB with distinct random content (some ten 32 KiB buffer-fulls per
+// call are in flight), a few rounds. Across the two file systems copy_file_range is refused by
+// the kernel, so the data goes through the read/write loop, and MoveFile takes its copy fallback.
+func concQuickCases(a shardArgs) []Case {
+	var out []Case
+	for _, conc := range []int{8, 32} {
+		for _, dst := range []string{"missing", "longer"} {
+			out = append(out, Case{Op: "mix", Size: 300000, SrcFS: a.SrcFS, DstFS: a.DstFS, Src: "present", Dst: dst, Conc: conc, Rounds: 3})
+		}
+	}
+	return out
+}
+
 // runConcurrent: cs.Conc goroutines, released together in each of cs.Rounds rounds, each call
 // on its own source and destination file inside two shared directories; every call is judged
 // by the ordinary oracle.
@@ -470,7 +484,11 @@ func runConcurrent(cs Case, e *env, oc *outcome) (key, expected, observed string
 				if cur > 1 {
 					overlap.Add(1)
 				}
-				res := call(cs.Op, src, dst)
+				wcs := cs
+				if cs.Op == "mix" { // CopyFile and MoveFile at the same time
+					wcs.Op = []string{"copy", "move"}[w%2]
+				}
+				res := call(wcs.Op, src, dst)
 				inflight.Add(-1)
 				calls.Add(1)
 				if res.Nil {
@@ -478,7 +496,7 @@ func runConcurrent(cs Case, e *env, oc *outcome) (key, expected, observed string
 				}
 				srcPost, dstPost := takeSnap(src, limit), takeSnap(dst, limit)
 				var o outcome
-				if k, ex, ob := judge(cs, res, srcPre, dstPre, srcPost, dstPost, &o); k != "" {
+				if k, ex, ob := judge(wcs, res, srcPre, dstPre, srcPost, dstPost, &o); k != "" {
 					mu.Lock()
 					if first == nil {
 						first = &verdict{k, ex, fmt.Sprintf("worker %d of %d, round %d, size %d: %s", w, cs.Conc, r, size, ob)}
